@@ -23,7 +23,7 @@ EXPLANATION = "direct exploration of the real solver; every execution is an exec
 
 
 def budget_s(tier):
-    return 300 if tier == "quick" else 3600
+    return 300 if tier == "quick" else 7200
 
 
 LEVELS_QUICK = [
@@ -46,8 +46,8 @@ LEVELS_THOROUGH = [
     (3, 4, cm.KINDS7, ("real", "cplx"), ("plain", "odd"), False),
     (4, 3, cm.KINDS7, ("real", "cplx"), ("plain", "odd"), False),
     (4, 4, cm.KINDS4, ("real", "cplx"), ("plain", "odd"), False),
-    (4, 5, cm.KINDS3, ("real",), ("plain", "odd"), False),
-    (5, 5, cm.KINDS3, ("cplx",), ("odd",), False),
+    (4, 5, cm.KINDS3, ("real",), ("odd",), False),
+    (5, 5, ("Z", "V"), ("cplx",), ("odd",), False),
 ]
 
 
